@@ -631,6 +631,9 @@ func (c *checker) classify(cs *caseSpec, w *written) {
 		default:
 			r.Class("payload:above threshold (compressed)/" + st.Content)
 		}
+		if st.Size >= 4090 && st.Size <= 4098 {
+			r.Class("payload:frame ends within 6 bytes of the 4096-byte buffer size")
+		}
 		if st.Size >= 1<<21-1000 {
 			r.Class("payload:within 1000 bytes of 2^21-1/" + st.Content)
 		}
